@@ -306,4 +306,39 @@ example : ∀ s s', run 2 {} (exChain.take 13) = some s → run 2 s ((exChain.dr
   fun _ _ h h' => moves_bounded (by decide) _ _ (by decide)
     (by intro c hc e; subst e; simp [exChain] at hc) h h' 2 (by decide)
 
+/-! ### the repaired dispatch (`PartProd.recvG`) and the model (`PartProd.recv`) -/
+
+/-- in every state a handover-chain run reaches, a token of a new, higher retry level at the head of pp.input finds
+    a broker worker selected: `newHighWatermark` has somewhere to send its chaser -/
+theorem rise_finds_worker {M : Nat} (hM : 1 ≤ M) (cs : List Choice) (hc : HandoverChain cs) {s : Sys}
+    (hr : run M {} cs = some s) (t : Pipeline.Tok) (r : List Pipeline.Tok) (hq : s.pq = t :: r) (hlvl : s.pp.hwm < t.retries) :
+    s.cur ≠ none := by
+  obtain ⟨seen, h⟩ := chain_run hM cs hc (fun _ _ hm => by cases hm) (chain_init M) hr
+  intro hcur
+  have hs : sysStep M s (.ppRecv []) = some (ppActs { s with pq := r, pp := (PartProd.recv s.pp (toPP t)).1 } []
+      (PartProd.recv s.pp (toPP t)).2) := by simp [sysStep, hq]
+  have h1 := chain_step hM (.ppRecv []) (fun w hw => by simp [lookupsOf] at hw) h hs
+  have hcr := (cinv_facts h1).2.2.1
+  rw [recv_rise_acts s.pp (toPP t) (by simpa [toPP] using hlvl)] at hcr
+  obtain ⟨_, g2, _⟩ := ppActs_grow [PartProd.Action.emit (toPP t).id (toPP t).retries (toPP t).fin]
+    (ppAct { s with pq := r, pp := (PartProd.recv s.pp (toPP t)).1 } [] (.finSend ((toPP t).retries - 1))).1
+    (ppAct { s with pq := r, pp := (PartProd.recv s.pp (toPP t)).1 } [] (.finSend ((toPP t).retries - 1))).2
+  have : (ppAct { s with pq := r, pp := (PartProd.recv s.pp (toPP t)).1 } []
+      (.finSend ((toPP t).retries - 1))).1.crash = true := by simp [ppAct, hcur]
+  have e := g2 this
+  exact absurd (e.symm.trans hcr) (by simp)
+
+/-- so the branch that the repair added to the partition producer (`recvG`: fail the token when no worker is
+    selected and the look-up fails) is never taken in these runs: the model's `recv` is the repaired dispatch -/
+theorem recvG_eq_recv {M : Nat} (hM : 1 ≤ M) (cs : List Choice) (hc : HandoverChain cs) {s : Sys}
+    (hr : run M {} cs = some s) (t : Pipeline.Tok) (r : List Pipeline.Tok) (hq : s.pq = t :: r) (avail : Bool)
+    (hav : s.cur ≠ none → avail = true) :
+    PartProd.recvG s.pp (toPP t) avail = PartProd.recv s.pp (toPP t) := by
+  simp only [PartProd.recvG]
+  split
+  · rename_i hg
+    have := rise_finds_worker hM cs hc hr t r hq (by simpa [toPP] using hg.1)
+    rw [hav this] at hg; exact absurd hg.2 (by simp)
+  · rfl
+
 end Props.C02sys
